@@ -25,6 +25,8 @@ def rat(x, squared: bool = False) -> list[int]:
         raise NotRational(f"not finite: {x}")
     if squared:
         x = x * abs(x)
+    if x == int(x) and abs(x) < 2 ** 31:
+        return [int(x), 1]
     f = Fraction(x).limit_denominator(MAX_DEN)
     if abs(float(f) - x) > TOL * max(1.0, abs(x)):
         raise NotRational(f"{x!r} is not a rational with denominator <= {MAX_DEN}")
